@@ -37,9 +37,46 @@ func runC02(w *World, r *Report, tier string) {
 	}
 	var rows []row
 	leaves := map[*ssa.Function]bool{}
-	// switchRows: edges asserting load(<path ending in `field`>) == const → first static module call in the target block
-	switchRows := func(fn *ssa.Function, field string) (map[string]*ssa.Call, bool) {
-		out := map[string]*ssa.Call{}
+	// switchRows: the dispatch of fn on a name field — a switch (edges asserting load(<path ending in field>) == const,
+	// the row being the first static module call in the target block) or a lookup in an effectively constant
+	// package-level map of decoder functions.
+	type target struct {
+		callee *ssa.Function
+		call   *ssa.Call // the call that runs the row's decoder (shared by all rows of a table)
+	}
+	// a function that only forwards to one module function (a closure wrapping a call, a bound method value)
+	unwrapTrivial := func(f *ssa.Function) *ssa.Function {
+		for i := 0; i < 3 && f != nil; i++ {
+			f = w.unwrap(f)
+			if f == nil || f.Blocks == nil || len(f.Blocks) != 1 {
+				return f
+			}
+			if f.Parent() == nil && f.Synthetic == "" && !strings.Contains(f.Name(), "$") {
+				return f // a named function is a row target in its own right
+			}
+			var calls []*ssa.Call
+			for _, in := range f.Blocks[0].Instrs {
+				if c, ok := in.(*ssa.Call); ok {
+					calls = append(calls, c)
+				}
+			}
+			if len(calls) != 1 {
+				return f
+			}
+			callee := calls[0].Call.StaticCallee()
+			if callee == nil || !w.inModule(callee) || callee.Blocks == nil {
+				return f
+			}
+			// forwards the parameters and returns the results
+			if len(f.Params)+len(f.FreeVars) < 2 {
+				return f
+			}
+			f = callee
+		}
+		return f
+	}
+	switchRows := func(fn *ssa.Function, field string) (map[string]target, bool) {
+		out := map[string]target{}
 		var constEdges EdgeSet = EdgeSet{}
 		for _, g := range withHelpers(fn) {
 			for _, b := range g.Blocks {
@@ -60,14 +97,76 @@ func runC02(w *World, r *Report, tier string) {
 					constEdges[Edge{b, si}] = true
 					for _, in := range b.Succs[si].Instrs {
 						if call, ok := in.(*ssa.Call); ok {
-							if callee := call.Call.StaticCallee(); callee != nil && w.inModule(callee) && !isHelper(callee) {
-								out[s] = call
+							if callee := call.Call.StaticCallee(); callee != nil && w.inModule(callee) {
+								// a row's decoder takes the element (start or end); a helper that only builds an error does not
+								takesElem := false
+								for _, prm := range callee.Params {
+									ts := prm.Type().String()
+									if isStartElementType(prm.Type()) || strings.HasSuffix(ts, "xml.EndElement") || strings.HasSuffix(ts, "xml.Token") {
+										takesElem = true
+									}
+								}
+								if !takesElem && isHelper(callee) {
+									continue
+								}
+								out[s] = target{callee, call}
 								break
 							}
 						}
 					}
 				}
 			}
+			// table form
+			allInstrs(g, func(in ssa.Instruction) {
+				lk, ok := in.(*ssa.Lookup)
+				if !ok || !lk.CommaOk {
+					return
+				}
+				fp := fieldPath(lk.Index)
+				if len(fp) == 0 || fp[len(fp)-1].Name() != field {
+					return
+				}
+				u, ok := originIn(fn, lk.X).(*ssa.UnOp)
+				if !ok {
+					return
+				}
+				gl, ok := u.X.(*ssa.Global)
+				if !ok {
+					return
+				}
+				tbl := w.constMapTable(gl)
+				if tbl == nil {
+					return
+				}
+				// the call through the looked-up function
+				var dyn *ssa.Call
+				for _, rf := range *lk.Referrers() {
+					if ex, ok := rf.(*ssa.Extract); ok && ex.Index == 0 {
+						for _, rf2 := range *ex.Referrers() {
+							if c, ok := rf2.(*ssa.Call); ok && c.Call.Value == ssa.Value(ex) {
+								dyn = c
+							}
+						}
+					}
+					if ex, ok := rf.(*ssa.Extract); ok && ex.Index == 1 {
+						for _, bb := range g.Blocks {
+							for si := range bb.Succs {
+								if cv, truth, isIf := edgeAssertion(bb, si); isIf && cv == ssa.Value(ex) && truth {
+									constEdges[Edge{bb, si}] = true
+								}
+							}
+						}
+					}
+				}
+				if dyn == nil {
+					return
+				}
+				for _, e := range tbl {
+					if f := unwrapTrivial(funcOfValue(e.Val)); f != nil {
+						out[e.Key] = target{f, dyn}
+					}
+				}
+			})
 		}
 		// default: with the const edges cut, every reachable return is (nil, non-nil error)
 		okDefault := len(constEdges) > 0
@@ -106,8 +205,7 @@ func runC02(w *World, r *Report, tier string) {
 	}
 	sort.Strings(nsKeys)
 	for _, ns := range nsKeys {
-		dc := nsRows[ns]
-		dec := dc.Call.StaticCallee()
+		dec := nsRows[ns].callee
 		// the dispatched start element is NextPacket's own
 		localRows, okDef := switchRows(dec, "Local")
 		r.Check(okDef, "R1", w.funcKey(dec)+"#default", w.pos(dec.Pos()), "an unknown element name in namespace "+ns+" does not yield (nil, error)", "unknown name ⇒ error")
@@ -117,8 +215,8 @@ func runC02(w *World, r *Report, tier string) {
 		}
 		sort.Strings(lk)
 		for _, local := range lk {
-			lc := localRows[local]
-			leaf := lc.Call.StaticCallee()
+			lc := localRows[local].call
+			leaf := localRows[local].callee
 			hasSE := false
 			for _, p := range leaf.Params {
 				if isStartElementType(p.Type()) {
@@ -161,11 +259,15 @@ func runC02(w *World, r *Report, tier string) {
 	}
 	r.Floor("R1", 17+5)
 	// stream end: an EndElement token reaches decodeStream and yields StreamClosePacket only for </stream>
-	ds := w.Func("stanza.decodeStream")
+	// (whichever function produces the stream-close packet: decodeStream today)
 	{
-		okEnd := false
-		allInstrs(ds, func(in ssa.Instruction) {
-			if c, ok := in.(*ssa.Call); ok && w.callKey(c) == "stanza.streamCloseDecoder.decode" {
+		okEnd, nSites := true, 0
+		where := w.pos(np.Pos())
+		for _, ds := range w.LibFuncs() {
+			for _, cc := range w.callsIn(ds, "stanza.streamCloseDecoder.decode") {
+				in := cc.(ssa.Instruction)
+				nSites++
+				where = w.pos(ds.Pos())
 				guard := edgesAsserting(ds, func(cv ssa.Value, truth bool) bool {
 					bo, ok := cv.(*ssa.BinOp)
 					if !ok || bo.Op != token.EQL || !truth {
@@ -174,10 +276,27 @@ func runC02(w *World, r *Report, tier string) {
 					s, isS := stringConst(bo.Y)
 					return isS && s == "stream"
 				})
-				okEnd = len(guard) > 0 && !reachable(entryLoc(ds), func(x ssa.Instruction) bool { return x == in }, nil, guard)
+				// the guard may sit in the caller that selects this function for an end element
+				for _, o := range w.owners(ds) {
+					if o == ds {
+						continue
+					}
+					guard = guard.union(edgesAsserting(o, func(cv ssa.Value, truth bool) bool {
+						bo, ok := cv.(*ssa.BinOp)
+						if !ok || bo.Op != token.EQL || !truth {
+							return false
+						}
+						s, isS := stringConst(bo.Y)
+						return isS && s == "stream"
+					}))
+				}
+				root := w.ownerFn(ds)
+				if len(guard) == 0 || reachable(entryLoc(root), func(x ssa.Instruction) bool { return x == in }, nil, guard) {
+					okEnd = false
+				}
 			}
-		})
-		r.Check(okEnd, "R1", "stanza.decodeStream#stream-close", w.pos(ds.Pos()), "a stream-close packet can be produced for an end tag that is not </stream>", "StreamClosePacket only for an end element named stream")
+		}
+		r.Check(okEnd && nSites > 0, "R1", "stanza.decodeStream#stream-close", where, "a stream-close packet can be produced for an end tag that is not </stream>", "StreamClosePacket only for an end element named stream")
 	}
 
 	// ---- R2 leaves
@@ -332,7 +451,11 @@ func runC02(w *World, r *Report, tier string) {
 	{
 		fn := w.Func("stanza.NextXmppToken")
 		okEOF := false
-		for _, b := range fn.Blocks {
+		var scanBlocks []*ssa.BasicBlock
+		for _, g := range withHelpers(fn) {
+			scanBlocks = append(scanBlocks, g.Blocks...)
+		}
+		for _, b := range scanBlocks {
 			for si := range b.Succs {
 				c, truth, isIf := edgeAssertion(b, si)
 				if !isIf || !truth {
@@ -360,34 +483,41 @@ func runC02(w *World, r *Report, tier string) {
 		}
 		r.Check(okEOF, "R4", "stanza.NextXmppToken#eof", w.pos(fn.Pos()), "the end of the byte stream is not reported as an error by NextXmppToken", "io.EOF ⇒ errors.New(\"connection closed\")")
 		// it returns only start elements and the </stream> end element
-		okTok := true
-		allInstrs(fn, func(in ssa.Instruction) {
-			ret, ok := in.(*ssa.Return)
-			if !ok || !isNilConst(ret.Results[1]) {
+		okTok, nTok := true, 0
+		walkPaths(entryLoc(fn), nil, nil, 20000, func(path []ssa.Instruction, end pathEnd) {
+			ret, ok := path[len(path)-1].(*ssa.Return)
+			if !ok || end == endCycle {
 				return
 			}
-			mi, isMI := ret.Results[0].(*ssa.MakeInterface)
+			res := rres(path, ret)
+			if len(res) != 2 || !isNilConst(res[1]) {
+				return
+			}
+			nTok++
+			mi, isMI := res[0].(*ssa.MakeInterface)
 			if !isMI {
 				okTok = false
 				return
 			}
 			ts := mi.X.Type().String()
 			if strings.HasSuffix(ts, "xml.EndElement") {
-				guard := edgesAsserting(fn, func(cv ssa.Value, truth bool) bool {
+				if !pathAsserts(path, func(cv ssa.Value, truth bool) bool {
 					bo, ok := cv.(*ssa.BinOp)
 					if !ok || bo.Op != token.EQL || !truth {
 						return false
 					}
 					s, isS := stringConst(bo.Y)
 					return isS && s == "stream"
-				})
-				if len(guard) == 0 || reachable(entryLoc(fn), func(x ssa.Instruction) bool { return x == in }, nil, guard) {
+				}) {
 					okTok = false
 				}
 			} else if !strings.HasSuffix(ts, "xml.StartElement") {
 				okTok = false
 			}
 		})
+		if nTok == 0 {
+			okTok = false
+		}
 		r.Check(okTok, "R4", "stanza.NextXmppToken#tokens", w.pos(fn.Pos()), "NextXmppToken can hand back a token that is neither a start element nor the </stream> end tag", "start elements and </stream:stream> only")
 	}
 
@@ -482,6 +612,26 @@ func c02Panics(w *World, r *Report, leaves map[*ssa.Function]bool) {
 			if why, ok := c02SafeSites[cons]; ok {
 				r.Ok("R5", cons, desc+": "+why)
 				return
+			}
+			// an unchecked assertion whose operand is, on every feasible path, a value of exactly the asserted type
+			if ta, ok := in.(*ssa.TypeAssert); ok && kind == "typeassert" {
+				okAll, nP := true, 0
+				isIt := func(x ssa.Instruction) bool { return x == in }
+				err := walkPaths(entryLoc(w.ownerFn(fn)), isIt, nil, 20000, func(path []ssa.Instruction, end pathEnd) {
+					if !isIt(path[len(path)-1]) {
+						return
+					}
+					nP++
+					v := valueOnPath(rvI(ta.X, len(path)-1), path)
+					mi, isMI := v.(*ssa.MakeInterface)
+					if !isMI || !types.Identical(mi.X.Type(), ta.AssertedType) {
+						okAll = false
+					}
+				})
+				if err == nil && okAll && nP > 0 {
+					r.Ok("R5", cons, desc+fmt.Sprintf(": on all %d feasible path(s) the operand is a value of exactly that type", nP))
+					return
+				}
 			}
 			// guarded index: dominated by a length test on the same slice
 			if kind == "index" {
